@@ -39,6 +39,16 @@ def scenarios(ctx, n):
             sizes = gen.random_composition(r, N)
         w, m, v, sc = gen.gmm_params(r, C, D)
         x = gen.maybe_int(r, gen.sample_data(r, w, m, v, N), p=0.35)
+        if i >= len(comps) and r.random() < 0.12:
+            # features stored the way sensors deliver them: bytes (0 .. 255) or 16-bit samples — squares and sums of such values
+            # do not fit their own type, the statistics are real numbers all the same; small mixtures (1 - 2 Gaussians)
+            C = int(r.integers(1, 3))
+            kind, centre, spread = [("uint8", 128.0, 40.0), ("int16", 0.0, 8000.0), ("int8", 0.0, 40.0), ("uint16", 30000.0, 9000.0)][int(r.integers(0, 4))]
+            w = r.dirichlet(np.full(C, 3.0))
+            m = centre + r.normal(size=(C, D)) * spread * 0.5
+            v = spread**2 * r.uniform(0.5, 2.0, size=(C, D))
+            info = np.iinfo(kind)
+            x = np.clip(np.rint(gen.sample_data(r, w, m, v, N)), info.min, info.max).astype(kind)
         perm = r.permutation(N) if i % 3 == 2 else np.arange(N)
         # the machine's count threshold is an M-step setting: statistics do not depend on it
         mvt = float(r.choice([gen.EPS, gen.EPS, 0.5, 3.0]))
@@ -266,8 +276,27 @@ def search(ctx):
             fails.append(f)
             if len(fails) >= 3:
                 break
+    big = big_scenario(ctx.seed + 9)  # several thousand rows in one call (internal batching must not lose rows)
+    ctx.count("search:several-thousand-rows")
+    ctx.case(["big", ctx.seed], nontrivial=True)
+    f = oracle(big)
+    if f:
+        f["input"] = {"big_seed": ctx.seed + 9}
+        fails.append(f)
     return fails
 
 
+def big_scenario(seed):
+    r = np.random.default_rng(seed)
+    C, D = 2, 2
+    N = int(r.integers(4097, 9000))
+    w, m, v, _ = gen.gmm_params(r, C, D, scales=np.ones(D))
+    x = gen.sample_data(r, w, m, v, N)
+    x = x[np.argsort(x[:, 0])]  # ordered rows: the tail differs from the head
+    return dict(C=C, D=D, w=w, m=m, v=v, x=x, x_dtype="float64", sizes=(N // 2, N - N // 2), perm=np.arange(N))
+
+
 def replay(d):
+    if "big_seed" in d["input"]:
+        return oracle(big_scenario(d["input"]["big_seed"]))
     return oracle(d["input"])
